@@ -27,5 +27,5 @@ for i in $(seq 1 20); do
   if echo "$out" | grep -q "failed to load manifest"; then sleep 10; else break; fi
 done
 if [ $rc -ne 0 ]; then echo "$out" | grep -E "^error" -A10 | head -40; echo "MUTANT-BUILD-FAILED"; exit 4; fi
-VERIF_ROOT=$M/verif $M/target/release/$crate quick "$@" 2>&1 | tail -8
+VERIF_ROOT=$M/verif $M/target/release/$crate quick "$@" 2>&1 | tee $M/last_run_$PID.log | tail -8
 echo "MUTANT-EXIT=${PIPESTATUS[0]}"
